@@ -165,7 +165,7 @@ def kani_cmd(h, target_dir, extra=None):
             "--target-dir", target_dir, "--output-format", "regular"]
     if h["crate"] == "raft":
         cmd += ["-Z", "async-lib"]
-    if h.get("reach") != "1":
+    if h.get("reach") != "1" and "--no-assertion-reach-checks" not in (h.get("args") or ""):
         # per-check reachability probes cost 10-15 extra SAT calls per harness;
         # vacuity is guarded by the mandatory kani::cover! properties instead
         cmd += ["--no-assertion-reach-checks"]
